@@ -506,6 +506,11 @@ func (fr *Frame) assignGhosts(ct *Contract, ev *SpecEval, st *State, e *SExpr, c
 		return &SExpr{Kind: "binary", Name: "&&", Args: []*SExpr{l, r}}
 	case e.Kind == "binary" && e.Name == "==" && isAssignedGhost(e.Args[0]):
 		rhs := ev.term(e.Args[1])
+		if _, hi := rootRange(rhs); rhs.S == SRef && hi == noBound {
+			// a reference of unknown age (an uninterpreted function value): keep the havoced register, whose age is
+			// bounded, and assume the equation instead, so that later frame reasoning about the register stays decidable
+			return e
+		}
 		cur := st.Ghost[e.Args[0].Name]
 		if cur == nil {
 			cur = st.ghostVar(fr.vc, fr.vc.prog.specs.Ghost[e.Args[0].Name])
@@ -595,7 +600,12 @@ func (fr *Frame) havocAssigns(ct *Contract, st *State) {
 		default:
 			// ghost variable
 			if gd, ok := vc.prog.specs.Ghost[a]; ok {
-				st.Ghost[a] = Var(freshName("g."+a+"@call"), gd.S)
+				if gd.S == SRef {
+					// a reference register: whatever it names exists when the call returns
+					st.Ghost[a] = VarB(freshName("g."+a+"@call"), gd.S, vc.allocN+1)
+				} else {
+					st.Ghost[a] = Var(freshName("g."+a+"@call"), gd.S)
+				}
 			} else {
 				vc.warn("unknown assigns target %s in %s", a, ct.Key)
 			}
